@@ -113,6 +113,31 @@ func (x *Exec) doCall(res ssa.Value, call *ssa.CallCommon, p token.Pos) {
 		setRes(Val{KnownLen: -1})
 		return
 	}
+	// a function-valued parameter may carry its own contract, written as
+	//   //@ extern param:<dir>::<function>:<parameter>
+	// whose clauses may also mention the enclosing function's variables
+	if prm, ok := call.Value.(*ssa.Parameter); ok && x.parent == nil {
+		dir := strings.TrimPrefix(strings.TrimPrefix(strings.SplitN(x.V.funcKey(x.fn), "::", 2)[0], x.V.Module), "/")
+		rel := strings.SplitN(x.V.funcKey(x.fn), "::", 2)[1]
+		key := "param:" + dir + "::" + rel + ":" + prm.Name()
+		if c, ok := x.V.DB.ByKey[key]; ok {
+			sig := call.Signature()
+			var names []string
+			var tys []types.Type
+			for i := 0; i < sig.Params().Len(); i++ {
+				n := fmt.Sprintf("a%d", i)
+				if i < len(c.Params) {
+					n = c.Params[i]
+				}
+				names = append(names, n)
+				tys = append(tys, sig.Params().At(i).Type())
+			}
+			x.outerEnv = x.specEnvAt(x.cur, nil)
+			setRes(x.applyContract(c, key, args, names, tys, sig.Results(), p))
+			x.outerEnv = nil
+			return
+		}
+	}
 	x.unknownCall("funcvalue:"+call.Value.Name()+":"+tn, call.Signature().Results(), setRes, false)
 }
 
@@ -246,7 +271,8 @@ func (x *Exec) inline(f *ssa.Function, binds []Val, args []Val, p token.Pos) Val
 	ch := &Exec{V: x.V, fn: f, c: x.c, smt: x.smt, vals: map[ssa.Value]Val{}, st: x.st, init: x.init, svSort: x.svSort,
 		edges: map[*ssa.BasicBlock][]edge{}, done: map[*ssa.BasicBlock]bool{}, safeN: x.safeN, written: x.written,
 		discovering: x.discovering, inlineDepth: x.inlineDepth + 1, callN: x.callN, parent: x,
-		fvKnown: map[string]int{}, iterSV: map[*ssa.Range]string{}, entryReach: x.reach}
+		fvKnown: map[string]int{}, iterSV: map[*ssa.Range]string{}, entryReach: x.reach,
+		refWrites: x.refWrites, freshRefs: x.freshRefs}
 	x.V.inlineSeq++
 	ch.nameSuffix = fmt.Sprintf("%s~%d", x.nameSuffix, x.V.inlineSeq)
 	for i, prm := range f.Params {
@@ -339,6 +365,14 @@ func (x *Exec) applyContract(c *Contract, name string, args []Val, names []strin
 	env.st = pre
 	env.old = pre
 	env.lets = c.Lets
+	if x.outerEnv != nil {
+		for k, v := range x.outerEnv.vars {
+			if _, dup := env.vars[k]; !dup {
+				env.vars[k] = v
+			}
+		}
+		env.lets = append(append([]NamedExpr{}, c.Lets...), x.outerEnv.lets...)
+	}
 	x.callN[name]++
 	for _, r := range c.Requires {
 		t, err := x.evalSpec(r.E, env)
@@ -458,14 +492,14 @@ func (x *Exec) doBuiltin(f *ssa.Builtin, call *ssa.CallCommon, args []Val, p tok
 			// unrolled: store each appended element
 			arr := "(select " + h + " (sref " + a + "))"
 			cur := x.smt.fresh("appbase", "(Array Int "+so+")")
-			x.smt.assume(implies(x.reach, fmt.Sprintf("(forall ((i Int)) (! (=> (and (<= 0 i) (< i %s)) (= (select %s i) (select %s (+ (soff %s) i)))) :pattern ((select %s i))))", la, cur, arr, a, cur)))
+			x.smt.assume(implies(x.reach, fmt.Sprintf("(forall ((i Int)) (! (=> (and (<= 0 i) (< i %s)) (= (select %s i) (select %s (ix (soff %s) i)))) :pattern ((select %s i))))", la, cur, arr, a, cur)))
 			t := cur
 			for k := 0; k < args[1].KnownLen; k++ {
-				t = fmt.Sprintf("(store %s (+ %s %d) (select (select %s (sref %s)) (+ (soff %s) %d)))", t, la, k, h, b, b, k)
+				t = fmt.Sprintf("(store %s (+ %s %d) (select (select %s (sref %s)) (ix (soff %s) %d)))", t, la, k, h, b, b, k)
 			}
 			x.smt.assume(implies(x.reach, "(= "+na+" "+t+")"))
 		} else {
-			x.smt.assume(implies(x.reach, fmt.Sprintf("(forall ((i Int)) (! (and (=> (and (<= 0 i) (< i %s)) (= (select %s i) (select (select %s (sref %s)) (+ (soff %s) i)))) (=> (and (<= %s i) (< i (+ %s %s))) (= (select %s i) (select (select %s (sref %s)) (+ (soff %s) (- i %s)))))) :pattern ((select %s i))))",
+			x.smt.assume(implies(x.reach, fmt.Sprintf("(forall ((i Int)) (! (and (=> (and (<= 0 i) (< i %s)) (= (select %s i) (select (select %s (sref %s)) (ix (soff %s) i)))) (=> (and (<= %s i) (< i (+ %s %s))) (= (select %s i) (select (select %s (sref %s)) (ix (soff %s) (- i %s)))))) :pattern ((select %s i))))",
 				la, na, h, a, a, la, la, lb, na, h, b, b, la, na)))
 		}
 		x.setSV(sv, svs, "(store "+h+" "+r+" "+na+")")
@@ -524,7 +558,7 @@ func (x *Exec) strList(v Val, elem types.Type) (Term, bool) {
 	t := x.termOf(v)
 	out := "snil"
 	for k := v.KnownLen - 1; k >= 0; k-- {
-		out = fmt.Sprintf("(scons (select (select %s (sref %s)) (+ (soff %s) %d)) %s)", x.getSV(sv, svs), t, t, k, out)
+		out = fmt.Sprintf("(scons (select (select %s (sref %s)) (ix (soff %s) %d)) %s)", x.getSV(sv, svs), t, t, k, out)
 	}
 	return out, true
 }
